@@ -80,9 +80,13 @@ VaAsserted(abi, va) ==
   \/ va = 255
   \/ abi \in {"sysv64", "win64", "cdecl32", "regparm1", "regparm2", "regparm3", "aapcs64", "apple64"}
 
+(* a variadic argument of a type the C default argument promotions remove (char, short, float) cannot come from a C *)
+(* caller, so no compiler shows where it would go: such signatures are not asserted                              *)
+Promotable(t) == (Cls(t) = "int" /\ Sz(t) < 4) \/ t = "f32"
 SigAsserted(abi, args, va) ==
   /\ abi # "none"
   /\ VaAsserted(abi, va)
+  /\ (va # 255 => \A q \in 1..Len(args) : q - 1 >= va => ~Promotable(args[q]))
   /\ \A q \in 1..Len(args) : ArgAsserted(abi, args[q])
   /\ (abi = "thiscall32" => Len(args) >= 1 /\ Cls(args[1]) = "int" /\ Sz(args[1]) = 4)
 
